@@ -26,6 +26,12 @@ EXPLANATION = (
 OPAQUE = ["round_decimal", "get_new_order_list", "check_transaction", "_deduct_order_amount", "get_trade_fee",
           "get_average_price", "_find_available_orders", "__get_trade_amount", "_is_open"]
 
+REF_FIND_LEVEL = '''
+def _find_available_orders(price, order_list):
+    error = Decimal("0.001")
+    return list(filter(lambda x: (1 - error) * price < x[0] < (1 + error) * price, order_list))
+'''
+
 REF_FEE = '''
 def get_trade_fee(self, amount, total_premium):
     cap = Decimal("0.125") * total_premium
@@ -368,6 +374,9 @@ def run(model, tier="quick"):
     formula_check(res, model, "DeribitOptionMarket.check_transaction", REF_CHECK,
                   "pre-trade checks: presence, state, dust, price caps vs mark, limit level, available size",
                   opaque=["round_decimal", "_find_available_orders"])
+    formula_check(res, model, "DeribitOptionMarket._find_available_orders", REF_FIND_LEVEL,
+                  "the level of a limit-priced order: the levels whose price is strictly within 0.1% of the limit (one tick is "
+                  "never closer than that), in book order")
     fx = ["_subtract_from_balance", "_add_to_balance", "_record_action"]
     effects_check(res, model, "DeribitOptionMarket.buy", REF_BUY,
                   "buy: cash -= sum(price*size)+fee of the fills; book := displayed asks - fills; position += n with "
